@@ -1,4 +1,5 @@
 import KM.Props.C14Go
+import KM.Gen.GoVip
 /-! # C05 — when `validateUserTOTP` says yes, on the TRANSLATED source (go2lean); see `KM/Props/C14Go.lean` -/
 namespace KM.Totp
 open KM.Go KM.GoTypes
@@ -20,5 +21,240 @@ theorem c05_go_totp_accept (ext : TotpExt) (now : Int) (rate0 : totpRateLimitInf
         ext.saveResult user { (ext.loadProfile user).1 with LastSuccessfullTOTPCounter :=
           (ext.matched (ext.otpString otp) (ext.decrypt d.EncryptedSecret).1 (t / 30) 30).1 } = none) :=
   go_totp_accept ext now rate0 user otp t h
+
+end KM.Totp
+
+/-! ### `VIPPollCheckHandler` as translated: whose approval a poll collects -/
+namespace KM.VipPoll
+open KM.Go KM.GoTypes
+
+/-- what the handler does once the method is GET or POST (the two arms of its `switch` are the same code) -/
+def core (ext : VipPollExt) : List PollEffect :=
+  if ext.parseForm.isSome = true then [.fail 400]
+  else match ext.checkAuth 65535 with
+    | (_, some _) => []
+    | (info, none) =>
+      match ext.pollCookie with
+      | (_, some _) => [.fail 400]
+      | (ck, none) =>
+        if ((ext.transaction ck).2 = false ∨ (ext.transaction ck).1.Username ≠ info.Username) then [.fail 412]
+        else if ext.expired (ext.transaction ck).1 = true then [.fail 412]
+        else match ext.approved (ext.transaction ck).1.TransactionID with
+          | (_, some _) => [.askVip (ext.transaction ck).1.TransactionID, .fail 400]
+          | (false, none) => [.askVip (ext.transaction ck).1.TransactionID, .fail 412]
+          | (true, none) =>
+            match ext.upgradeResult info.Username (info.AuthType ||| 16) with
+            | (_, some _) => [.askVip (ext.transaction ck).1.TransactionID, .upgrade info.Username (info.AuthType ||| 16), .fail 500]
+            | (_, none) => [.askVip (ext.transaction ck).1.TransactionID, .upgrade info.Username (info.AuthType ||| 16),
+                            .publish info.Username, .status 200]
+
+/-- the translated handler in normal form -/
+theorem handler_eq (ext : VipPollExt) (vipEnabled : Bool) (method : Str) :
+    (KM.Gen.GoVip.VIPPollCheckHandler ext vipEnabled method).2 =
+      if ext.locked = true then []
+      else if vipEnabled = false then [.fail 400]
+      else if method = "GET".toList ∨ method = "POST".toList then core ext
+      else [.fail 405] := by
+  obtain ⟨locked, parseForm, checkAuth, pollCookie, transaction, expired, approved, upgradeResult⟩ := ext
+  unfold KM.Gen.GoVip.VIPPollCheckHandler core
+  dsimp -iota only
+  have hG : "GET".toList = ['G', 'E', 'T'] := by decide
+  have hP : "POST".toList = ['P', 'O', 'S', 'T'] := by decide
+  rw [hG, hP]
+  cases locked with
+  | true => rfl
+  | false =>
+    cases vipEnabled with
+    | false => rfl
+    | true =>
+      have body : ∀ (m : Bool), m = m := fun _ => rfl
+      by_cases h1 : method = ['G', 'E', 'T']
+      · simp only [h1, beq_self_eq_true, if_true, true_or, Bool.false_eq_true, if_false, Bool.not_true]
+        cases hp : parseForm with
+        | some e => simp
+        | none =>
+          rcases hc : checkAuth 65535 with ⟨info, _ | e⟩
+          · rcases hk : pollCookie with ⟨ck, _ | e⟩
+            · rcases ht : transaction ck with ⟨tx, ok⟩
+              cases ok with
+              | false => simp [hc, hk, ht]
+              | true =>
+                by_cases hu : tx.Username = info.Username
+                · cases hx : expired tx with
+                  | true => simp [hc, hk, ht, hu, hx]
+                  | false =>
+                    rcases ha : approved tx.TransactionID with ⟨v, _ | e⟩
+                    · cases v with
+                      | false => simp [hc, hk, ht, hu, hx, ha]
+                      | true =>
+                        rcases hr : upgradeResult info.Username (info.AuthType ||| 16) with ⟨x, _ | e⟩ <;>
+                          simp [hc, hk, ht, hu, hx, ha, hr]
+                    · simp [hc, hk, ht, hu, hx, ha]
+                · simp [hc, hk, ht, hu]
+            · simp [hc, hk]
+          · simp [hc]
+      · by_cases h2 : method = ['P', 'O', 'S', 'T']
+        · subst h2
+          have hne : (['P', 'O', 'S', 'T'] == ['G', 'E', 'T']) = false := by decide
+          simp only [hne, beq_self_eq_true, if_true, or_true, Bool.false_eq_true, if_false, Bool.not_true]
+          cases hp : parseForm with
+          | some e => simp
+          | none =>
+            rcases hc : checkAuth 65535 with ⟨info, _ | e⟩
+            · rcases hk : pollCookie with ⟨ck, _ | e⟩
+              · rcases ht : transaction ck with ⟨tx, ok⟩
+                cases ok with
+                | false => simp [hc, hk, ht]
+                | true =>
+                  by_cases hu : tx.Username = info.Username
+                  · cases hx : expired tx with
+                    | true => simp [hc, hk, ht, hu, hx]
+                    | false =>
+                      rcases ha : approved tx.TransactionID with ⟨v, _ | e⟩
+                      · cases v with
+                        | false => simp [hc, hk, ht, hu, hx, ha]
+                        | true =>
+                          rcases hr : upgradeResult info.Username (info.AuthType ||| 16) with ⟨x, _ | e⟩ <;>
+                            simp [hc, hk, ht, hu, hx, ha, hr]
+                      · simp [hc, hk, ht, hu, hx, ha]
+                  · simp [hc, hk, ht, hu]
+              · simp [hc, hk]
+            · simp [hc]
+        · simp [h1, h2]
+
+/-- facts about `core` used below: whatever it asks VIP or upgrades concerns the caller's own transaction -/
+theorem core_facts (ext : VipPollExt) (e : PollEffect) (he : e ∈ core ext) :
+    (∀ id, e = .askVip id →
+      ∃ info ck, ext.checkAuth 65535 = (info, none) ∧ ext.pollCookie = (ck, none) ∧ (ext.transaction ck).2 = true ∧
+        (ext.transaction ck).1.Username = info.Username ∧ ext.expired (ext.transaction ck).1 = false ∧
+        id = (ext.transaction ck).1.TransactionID) ∧
+    (∀ u lvl, e = .upgrade u lvl →
+      ∃ info ck, ext.checkAuth 65535 = (info, none) ∧ ext.pollCookie = (ck, none) ∧ (ext.transaction ck).2 = true ∧
+        (ext.transaction ck).1.Username = info.Username ∧ ext.expired (ext.transaction ck).1 = false ∧
+        ext.approved (ext.transaction ck).1.TransactionID = (true, none) ∧
+        u = info.Username ∧ lvl = info.AuthType ||| 16) := by
+  unfold core at he
+  cases hp : ext.parseForm with
+  | some x => simp [hp] at he; subst he; exact ⟨(by intro _ h; cases h), (by intro _ _ h; cases h)⟩
+  | none =>
+    simp only [hp, Option.isSome_none, Bool.false_eq_true, if_false] at he
+    rcases hc : ext.checkAuth 65535 with ⟨info, _ | x⟩
+    · rw [hc] at he
+      dsimp only at he
+      rcases hk : ext.pollCookie with ⟨ck, _ | x⟩
+      · rw [hk] at he
+        dsimp only at he
+        by_cases hb : (ext.transaction ck).2 = false ∨ (ext.transaction ck).1.Username ≠ info.Username
+        · simp only [hb, if_true, List.mem_singleton] at he; subst he
+          exact ⟨(by intro _ h; cases h), (by intro _ _ h; cases h)⟩
+        · have hb1 : (ext.transaction ck).2 = true := by
+            cases h : (ext.transaction ck).2 with
+            | true => rfl
+            | false => exact absurd (Or.inl h) hb
+          have hb2 : (ext.transaction ck).1.Username = info.Username := by
+            by_cases h : (ext.transaction ck).1.Username = info.Username
+            · exact h
+            · exact absurd (Or.inr h) hb
+          simp only [hb, if_false] at he
+          cases hx : ext.expired (ext.transaction ck).1 with
+          | true =>
+            simp only [hx, if_true, List.mem_singleton] at he; subst he
+            exact ⟨(by intro _ h; cases h), (by intro _ _ h; cases h)⟩
+          | false =>
+            simp only [hx, Bool.false_eq_true, if_false] at he
+            rcases ha : ext.approved (ext.transaction ck).1.TransactionID with ⟨v, _ | x⟩
+            · rw [ha] at he
+              cases v with
+              | false =>
+                simp only [List.mem_cons, List.mem_nil_iff, or_false] at he
+                rcases he with rfl | rfl
+                · exact ⟨(by intro id h; cases h; exact ⟨info, ck, rfl, rfl, hb1, hb2, hx, rfl⟩), (by intro _ _ h; cases h)⟩
+                · exact ⟨(by intro _ h; cases h), (by intro _ _ h; cases h)⟩
+              | true =>
+                dsimp only at he
+                rcases hr : ext.upgradeResult info.Username (info.AuthType ||| 16) with ⟨y, _ | x⟩
+                · rw [hr] at he
+                  simp only [List.mem_cons, List.mem_nil_iff, or_false] at he
+                  rcases he with rfl | rfl | rfl | rfl
+                  · exact ⟨(by intro id h; cases h; exact ⟨info, ck, rfl, rfl, hb1, hb2, hx, rfl⟩), (by intro _ _ h; cases h)⟩
+                  · exact ⟨(by intro _ h; cases h), (by intro u l h; cases h; exact ⟨info, ck, rfl, rfl, hb1, hb2, hx, ha, rfl, rfl⟩)⟩
+                  · exact ⟨(by intro _ h; cases h), (by intro _ _ h; cases h)⟩
+                  · exact ⟨(by intro _ h; cases h), (by intro _ _ h; cases h)⟩
+                · rw [hr] at he
+                  simp only [List.mem_cons, List.mem_nil_iff, or_false] at he
+                  rcases he with rfl | rfl | rfl
+                  · exact ⟨(by intro id h; cases h; exact ⟨info, ck, rfl, rfl, hb1, hb2, hx, rfl⟩), (by intro _ _ h; cases h)⟩
+                  · exact ⟨(by intro _ h; cases h), (by intro u l h; cases h; exact ⟨info, ck, rfl, rfl, hb1, hb2, hx, ha, rfl, rfl⟩)⟩
+                  · exact ⟨(by intro _ h; cases h), (by intro _ _ h; cases h)⟩
+            · rw [ha] at he
+              simp only [List.mem_cons, List.mem_nil_iff, or_false] at he
+              rcases he with rfl | rfl
+              · exact ⟨(by intro id h; cases h; exact ⟨info, ck, rfl, rfl, hb1, hb2, hx, rfl⟩), (by intro _ _ h; cases h)⟩
+              · exact ⟨(by intro _ h; cases h), (by intro _ _ h; cases h)⟩
+      · rw [hk] at he; simp only [List.mem_singleton] at he; subst he
+        exact ⟨(by intro _ h; cases h), (by intro _ _ h; cases h)⟩
+    · rw [hc] at he; cases he
+
+theorem mem_core {ext : VipPollExt} {vipEnabled : Bool} {method : Str} {e : PollEffect}
+    (he : e ∈ (KM.Gen.GoVip.VIPPollCheckHandler ext vipEnabled method).2)
+    (hne : ∀ c, e ≠ .fail c) : ext.locked = false ∧ vipEnabled = true ∧ e ∈ core ext := by
+  rw [handler_eq] at he
+  cases hl : ext.locked with
+  | true => simp [hl] at he
+  | false =>
+    cases vipEnabled with
+    | false => simp [hl] at he; exact absurd he (hne 400)
+    | true =>
+      by_cases hm : method = "GET".toList ∨ method = "POST".toList
+      · simp only [hl, Bool.false_eq_true, if_false, Bool.true_eq_false, hm, if_true] at he
+        exact ⟨rfl, rfl, he⟩
+      · simp only [hl, Bool.false_eq_true, if_false, Bool.true_eq_false, hm] at he
+        simp only [List.mem_singleton] at he
+        exact absurd he (hne 405)
+
+end KM.VipPoll
+
+namespace KM.Totp
+open KM.Go KM.GoTypes KM.VipPoll
+
+/-- **a VIP poll raises a session only with an approval of a push sent to that session's own user**, on the
+translated source of the whole handler: if `updateAuthCookieAuthlevel` is reached at all, the server is unsealed, the
+credential check admitted `info`, the transaction found under the (unauthenticated) poll cookie was started for
+`info.Username`, has not expired, the VIP service says it is approved — and what is raised is `info.Username`'s cookie
+to `info.AuthType | SymantecVIP`.  For every behaviour of `checkAuth`, of the transaction table and of the VIP service. -/
+theorem c05_go_vip_poll_own_user (ext : VipPollExt) (vipEnabled : Bool) (method : Str) (u : Str) (lvl : Nat)
+    (h : PollEffect.upgrade u lvl ∈ (KM.Gen.GoVip.VIPPollCheckHandler ext vipEnabled method).2) :
+    ext.locked = false ∧
+    ∃ info ck, ext.checkAuth 65535 = (info, none) ∧ ext.pollCookie = (ck, none) ∧ (ext.transaction ck).2 = true ∧
+      (ext.transaction ck).1.Username = info.Username ∧ ext.expired (ext.transaction ck).1 = false ∧
+      ext.approved (ext.transaction ck).1.TransactionID = (true, none) ∧
+      u = info.Username ∧ lvl = info.AuthType ||| 16 := by
+  obtain ⟨hl, _, hc⟩ := mem_core h (by intro c hh; cases hh)
+  exact ⟨hl, (core_facts ext _ hc).2 u lvl rfl⟩
+
+/-- the VIP service is only ever asked about a transaction that belongs to the authenticated caller -/
+theorem c05_go_vip_poll_asks_own (ext : VipPollExt) (vipEnabled : Bool) (method : Str) (id : Str)
+    (h : PollEffect.askVip id ∈ (KM.Gen.GoVip.VIPPollCheckHandler ext vipEnabled method).2) :
+    ∃ info ck, ext.checkAuth 65535 = (info, none) ∧ ext.pollCookie = (ck, none) ∧ (ext.transaction ck).2 = true ∧
+      (ext.transaction ck).1.Username = info.Username ∧ ext.expired (ext.transaction ck).1 = false ∧
+      id = (ext.transaction ck).1.TransactionID := by
+  obtain ⟨_, _, hc⟩ := mem_core h (by intro c hh; cases hh)
+  exact (core_facts ext _ hc).1 id rfl
+
+/-- non-vacuity: bob's poll with bob's approved transaction is served; alice's poll with bob's cookie value gets 412 -/
+def exPoll (caller : Str) : VipPollExt where
+  locked := false
+  parseForm := none
+  checkAuth _ := (⟨caller, 2, 0, 0⟩, none)
+  pollCookie := (['7'], none)
+  transaction _ := (⟨0, ['b', 'o', 'b'], ['t', 'x']⟩, true)
+  expired _ := false
+  approved _ := (true, none)
+  upgradeResult _ _ := ([], none)
+
+example : (KM.Gen.GoVip.VIPPollCheckHandler (exPoll ['b', 'o', 'b']) true "POST".toList).2 =
+      [.askVip ['t', 'x'], .upgrade ['b', 'o', 'b'] 18, .publish ['b', 'o', 'b'], .status 200] ∧
+    (KM.Gen.GoVip.VIPPollCheckHandler (exPoll ['a', 'l', 'i', 'c', 'e']) true "POST".toList).2 = [.fail 412] := by
+  decide
 
 end KM.Totp
